@@ -84,6 +84,54 @@ Theorem C16_no_recursion : forall fuel marker uv c mode ld period now tok,
 Proof. exact no_recursion. Qed.
 Print Assumptions C16_no_recursion.
 
+(* --------------------------------------------------- both entry points *)
+
+(* child() is reached through Start or through MaybeChild (the pattern of
+   programs such as cmd/go: MaybeChild first, Start later).  For every marker,
+   flag, mode and token the two patterns do the same thing ... *)
+Theorem C16_entry_points_agree : forall e marker uv c mode ld period now tok,
+  program_run e marker uv c mode ld period now tok = start_run marker uv c mode ld period now tok.
+Proof. exact program_run_eq. Qed.
+Print Assumptions C16_entry_points_agree.
+
+(* ... in particular, whichever entry point ran the sidecar, its first effect
+   rewrites the marker, so the environment of everything it starts afterwards
+   carries "2" ... *)
+Theorem C16_child_marks_environment : forall e uv c mode ld period now tok,
+  exists rest,
+    r_effects (program_run e lit_1 uv c mode ld period now tok) = ESetMarker2 :: rest /\
+    r_outcome (program_run e lit_1 uv c mode ld period now tok) = OChildExit /\
+    env_marker_after lit_1 (r_effects (program_run e lit_1 uv c mode ld period now tok)) = lit_2 /\
+    (forall pre post, rest = pre ++ post -> env_marker_after lit_1 (ESetMarker2 :: pre) = lit_2).
+Proof. exact child_marks_environment. Qed.
+Print Assumptions C16_child_marks_environment.
+
+(* ... and a process that finds "2" does nothing and starts nothing, by either
+   entry point, to any depth. *)
+Theorem C16_marker2_inert : forall e fuel uv c mode ld period now tok,
+  program_run e lit_2 uv c mode ld period now tok = mkR OReturned [] tok /\
+  spawned_e fuel e lit_2 uv c mode ld period now tok = [].
+Proof. exact marker2_inert. Qed.
+Print Assumptions C16_marker2_inert.
+
+(* The process tree of a program with either entry pattern (its sidecar is the
+   same program; the delegated go command uses MaybeChild-then-Start). *)
+Theorem C16_process_tree_shape_any_entry : forall fuel e marker uv c mode ld period now tok p,
+  In p (spawned_e fuel e marker uv c mode ld period now tok) ->
+    (p_kind p = KSidecar /\ p_marker p = lit_1 /\ marker = [] /\ mode <> lit_off /\
+     launches c period now tok = true /\
+     (p_upload p = true -> uv = true \/
+        (c_upload c = true /\ token_state_allows period now tok = true)))
+    \/ (p_kind p = KDelegated /\ p_marker p = lit_2 /\ mode = lit_on).
+Proof. exact spawned_e_shape. Qed.
+Print Assumptions C16_process_tree_shape_any_entry.
+
+Theorem C16_sidecars_bounded_any_entry : forall fuel e marker uv c mode ld period now tok,
+  (count is_sidecar (spawned_e fuel e marker uv c mode ld period now tok)
+   <= if beq marker [] then 1 else 0)%nat.
+Proof. exact sidecars_bounded_e. Qed.
+Print Assumptions C16_sidecars_bounded_any_entry.
+
 (* --------------------------------------------------- mode off *)
 
 (* Mode off: nothing is started by anybody, to any depth ... *)
@@ -151,6 +199,13 @@ Theorem C16_oracle_accepts_model : forall fuel marker uv c mode ld period now to
 Proof. exact oracle_accepts_model. Qed.
 Print Assumptions C16_oracle_accepts_model.
 
+Theorem C16_oracle_accepts_model_any_entry : forall fuel e marker uv c mode ld period now tok,
+  let r := program_run e marker uv c mode ld period now tok in
+  start_ok marker uv c mode period now tok (token_created r) (fs_changed r)
+           (spawned_e fuel e marker uv c mode ld period now tok) = true.
+Proof. exact oracle_accepts_model_e. Qed.
+Print Assumptions C16_oracle_accepts_model_any_entry.
+
 (* --------------------------------------------------- non-vacuity *)
 From Coq Require Import String. Open Scope string_scope. Open Scope list_scope.
 
@@ -180,3 +235,13 @@ Example C16_example_race :
   winners (trun c_tokenPeriod_ns sched (tinit 3 1000 None)) = 1%nat /\
   t_token (trun c_tokenPeriod_ns sched (tinit 3 1000 None)) = Some 1005%Z.
 Proof. repeat split; vm_compute; reflexivity. Qed.
+
+(* a MaybeChild-then-Start program whose sidecar uploads in mode on: the go
+   command finds "2" *)
+Example C16_example_maybechild :
+  let h := 3600000000000%Z in
+  spawned_e 4 EntryMaybeChild [] false (mkCfg false true) (s2b "on") true c_tokenPeriod_ns (100 * h) None
+  = [mkProc KSidecar (s2b "1") true; mkProc KDelegated (s2b "2") true] /\
+  spawned_e 4 EntryMaybeChild (s2b "1") true (mkCfg false true) (s2b "on") true c_tokenPeriod_ns (100 * h) None
+  = [mkProc KDelegated (s2b "2") true].
+Proof. split; vm_compute; reflexivity. Qed.
